@@ -59,6 +59,10 @@ func (w *World) byteSeq(root *ssa.Function, val ssa.Value, depth int) ([]seqPart
 			return append(base, seqPart{many: y.Call.Args[1]}), true
 		}
 	case *ssa.MakeSlice:
+		// make([]byte, 0, n): nothing yet (what follows is appended)
+		if k, isK := intConst(y.Len); isK && k == 0 {
+			return []seqPart{}, true
+		}
 		// make([]byte, k+len(src)); buf[i] = b_i for i < k; copy(buf[k:], src)
 		ones := map[int64]ssa.Value{}
 		var src ssa.Value
